@@ -285,7 +285,8 @@ def r19_6(ctx, body, calc):
             has_text = any('string' in (strip_all(a).get('t') or '') or 'char' in (strip_all(a).get('t') or '') for a in args)
             ate = any(y.get('k') == 'DeclRefExpr' and (y.get('n') or '').split('::')[-1] in ('ate', 'app') for a in args for y in walk(a))
             written = any(y.get('k') == 'CXXOperatorCallExpr' and y.get('op') == '<<' and any(z.get('k') == 'DeclRefExpr' and z.get('di') == x.get('di') for z in walk(y)) for y in walk(body)) or \
-                any(y.get('k') in ('CallExpr', 'CXXMemberCallExpr') and any(strip_all(a).get('k') == 'DeclRefExpr' and strip_all(a).get('di') == x.get('di') for a in call_args(y)) for y in walk(body))
+                ('ostringstream' in (x.get('t') or '') and
+                 any(y.get('k') in ('CallExpr', 'CXXMemberCallExpr') and any(strip_all(a).get('k') == 'DeclRefExpr' and strip_all(a).get('di') == x.get('di') for a in call_args(y)) for y in walk(body)))
             ok = not (has_text and not ate and written)
             ctx.ob('R19.6', 'stream-init:%s' % x.get('n'), ok, ('string stream %s starts empty or appends' % x.get('n')) if ok else
                    ('the string stream %s (line %s) is constructed from initial text without std::ios_base::ate and then written: the write position starts at 0, so the later output '
